@@ -30,13 +30,12 @@ structure Params.Wire (P : Params) : Prop where
   family : P.family < 256
   serVer : P.serVer < 256
   emptyMask : P.emptyMask = 4
-  maxBits : P.maxBits < 2 ^ 40
 
 /-- field ranges of a filter -/
 structure FWF (f : Filter) : Prop where
   capPos : 0 < f.capBits
   cap64 : f.capBits % 64 = 0
-  capLt : f.capBits < 2 ^ 41
+  capLt : f.capBits < 2 ^ 32
   nh : f.numHashes < 2 ^ 16
   seed : f.seed < 2 ^ 64
 
